@@ -554,34 +554,20 @@ func (t timeSerializer) serialize(ctx context.Context, typ sql.Type, value inter
 	minutes := durationInSeconds / 60 % 60
 	seconds := durationInSeconds % 60
 
-	// Prepare the fractional seconds component first
 	// NOTE: Dolt always uses 6 digits of precision. When Dolt starts supporting other time precisions,
 	//       this code will need to change.
 	microseconds := durationInMicroseconds % 1_000_000
-	if negative && microseconds > 0 {
-		seconds++
-		if seconds == 60 {
-			seconds = 0
-			minutes += 1
-		}
-		if minutes == 60 {
-			minutes = 0
-			hours += 1
-		}
-		microseconds = 0x1000000 - microseconds
-	}
 
-	// Prepare the 3 byte hour/minute/second component
-	hms := hours<<12 | minutes<<6 | seconds + 0x800000
+	// MySQL's TIME2 format packs hours, minutes, seconds and the fractional seconds into ONE signed integer,
+	// (hour<<12 | minute<<6 | second) << 24 | microseconds, and stores it in six big-endian bytes with an offset of
+	// 0x800000000000. A negative value is the negation of that whole integer, so a non-zero fraction borrows from the
+	// packed hour/minute/second integer as a plain integer, not from the seconds field with a carry into the minutes.
+	packed := (hours<<12|minutes<<6|seconds)<<24 | microseconds
 	if negative {
-		hms *= -1
+		packed = -packed
 	}
-
-	// Write the components to the data buffer
-	temp := make([]byte, 4)
-	binary.BigEndian.PutUint32(temp, uint32(hms))
-	data = append(data, temp[1:]...)
-	data = append(data, uint8(microseconds>>16), uint8(microseconds>>8), uint8(microseconds))
+	packed += 0x800000000000
+	data = append(data, byte(packed>>40), byte(packed>>32), byte(packed>>24), byte(packed>>16), byte(packed>>8), byte(packed))
 
 	return data, nil
 }
